@@ -31,6 +31,9 @@ MULTI_REIFICATION_SPEC = dict(
     CUSTOM_SPECS[0],
     reifications=[[':mod', 'have-mod-91', ':ARG1', ':ARG2'],
                   [':loc', 'be-located-at-91', ':ARG1', ':ARG2'],
+                  # a concept shared by two roles with the *same* argument roles, and the roles interleaved:
+                  # which role a be-located-at-91 node dereifies to depends on the order inside the table
+                  [':mod', 'be-located-at-91', ':ARG1', ':ARG2'],
                   [':loc', 'have-mod-91', ':ARG3', ':ARG4'],
                   [':quant', 'have-quant-91', ':ARG1', ':ARG2'],
                   [':quant', 'be-located-at-91', ':ARG3', ':ARG4']])
